@@ -391,6 +391,49 @@ impl<'tcx> Interp<'tcx> {
         }
     }
 
+    /// LIN tier: the linear forms of the i32 leaves of the array arguments (compact text: one leaf per line,
+    /// `m|d|name:coef,name:coef,...` or `-` when there is no form)
+    fn forms_of_args(&self, st: &State, args: &[Val]) -> std::collections::BTreeMap<String, String> {
+        let mut leaves: Vec<IntV> = Vec::new();
+        fn walk(v: &Val, out: &mut Vec<IntV>) {
+            match v {
+                Val::Int(i) if i.ty.bits > 8 => out.push(i.clone()),
+                Val::Tuple(t) => t.iter().for_each(|x| walk(x, out)),
+                Val::Arr(a) if a.len <= 4096 => (0..a.len).for_each(|k| walk(a.get(k), out)),
+                _ => {}
+            }
+        }
+        for a in args {
+            if let Val::Ref(p) = a {
+                let v = self.read_ptr(st, p);
+                if matches!(v, Val::Arr(_)) {
+                    walk(&v, &mut leaves);
+                }
+            }
+        }
+        let mut text = String::new();
+        for i in leaves.iter() {
+            match &i.lin {
+                Some(l) => {
+                    text.push_str(&format!("{}|{}|", l.m, l.d));
+                    for (k, t) in l.terms.iter().enumerate() {
+                        if k > 0 {
+                            text.push(',');
+                        }
+                        text.push_str(&format!("{}:{}", self.atom_names.get(&t.0).cloned().unwrap_or_else(|| format!("a{}", t.0)), t.1));
+                    }
+                }
+                None => text.push('-'),
+            }
+            text.push('\n');
+        }
+        let mut d = std::collections::BTreeMap::new();
+        d.insert("leaves".to_string(), leaves.len().to_string());
+        d.insert("forms".to_string(), text);
+        d.insert("path".to_string(), self.call_path());
+        d
+    }
+
     /// LIN tier: how many i32 leaves of the array arguments are EXACTLY their own named atom, in order
     fn identity_of_args(&self, st: &State, args: &[Val]) -> std::collections::BTreeMap<String, String> {
         let mut leaves: Vec<IntV> = Vec::new();
@@ -801,6 +844,10 @@ impl<'tcx> Interp<'tcx> {
         let viol_before: std::collections::BTreeSet<String> =
             if memo_key.is_some() { self.sites.iter().filter(|(_, s)| s.violated).map(|(k, _)| k.clone()).collect() } else { Default::default() };
         let probe_args: Vec<String> = args.iter().map(|v| v.short()).collect();
+        if !self.dump_args_pats.is_empty() && !bi.name.contains("{closure") && self.dump_args_pats.iter().any(|p| bi.name.contains(p.as_str())) {
+            let d = self.forms_of_args(&st, &args);
+            self.probes.push(Probe { what: "arg_forms".into(), inst: bi.name.clone(), ctx: String::new(), data: d });
+        }
         let ident_entry: std::collections::BTreeMap<String, String> =
             if !self.ident_pats.is_empty() && !bi.name.contains("{closure") && self.ident_pats.iter().any(|p| bi.name.contains(p.as_str())) { self.identity_of_args(&st, &args) } else { Default::default() };
         let mut fr = FrameSt::new(bi.body.local_decls.len());
